@@ -319,7 +319,7 @@ func (g *FuncGen) alloc(x *ssa.Alloc) {
 	pt := x.Type().Underlying().(*types.Pointer).Elem()
 	r := g.newRef(x.Name())
 	if g.nonEsc[x] {
-		g.localRefs = append(g.localRefs, r)
+		g.addLocalRef(r, pt, 0)
 	}
 	switch {
 	case isStructType(pt):
@@ -345,6 +345,49 @@ func (g *FuncGen) alloc(x *ssa.Alloc) {
 		cl := c.cellClass(pt)
 		g.heapStore(cl, r, c.zero(pt))
 		g.set(x, Val{T: r, S: SInt, GT: x.Type(), P: &PtrDesc{Kind: PCell, Base: r, Class: cl, Elem: pt}})
+	}
+}
+
+// addLocalRef records a non-escaping local object (and the interior references of its struct/array-valued
+// fields) together with the heap classes that can hold its data.
+func (g *FuncGen) addLocalRef(ref string, t types.Type, depth int) {
+	c := g.c
+	if g.localRefClasses == nil {
+		g.localRefClasses = map[string]map[string]bool{}
+	}
+	cls := map[string]bool{}
+	g.localRefs = append(g.localRefs, ref)
+	g.localRefClasses[ref] = cls
+	switch {
+	case isStructType(t):
+		st, name, ok := c.structOf(t)
+		if !ok || depth > 4 {
+			delete(g.localRefClasses, ref) // unknown shape: preserve in every class
+			return
+		}
+		for i := 0; i < st.NumFields(); i++ {
+			f := st.Field(i)
+			if isStructType(f.Type()) || isArrayType(f.Type()) {
+				g.addLocalRef(c.subRef(name, f, ref), f.Type(), depth+1)
+				continue
+			}
+			cls[c.fieldClass(name, f)] = true
+		}
+		// ghost fields of the struct live in G_ classes named after it
+		for _, cl := range c.classList {
+			if strings.HasPrefix(cl, "G_"+name+"_") {
+				cls[cl] = true
+			}
+		}
+	case isArrayType(t):
+		at := t.Underlying().(*types.Array)
+		if isStructType(at.Elem()) {
+			delete(g.localRefClasses, ref)
+			return
+		}
+		cls[c.elemClass(at.Elem())] = true
+	default:
+		cls[c.cellClass(t)] = true
 	}
 }
 
